@@ -1261,7 +1261,10 @@ func (f *fragment) minRow(filter *Row) (uint64, uint64) {
 			return minRowID, 1
 		}
 		// iterate from min row ID and return the first that intersects with filter.
-		for i := minRowID; i <= f.maxRowID; i++ {
+		// The upper bound comes from storage: f.maxRowID is only a statistic
+		// that bulk imports, roaring imports and Store() never raise.
+		maxRowID := f.storage.Max() / ShardWidth
+		for i := minRowID; i <= maxRowID; i++ {
 			row := f.row(i).Intersect(filter)
 			count := row.Count()
 			if count > 0 {
@@ -1273,21 +1276,29 @@ func (f *fragment) minRow(filter *Row) (uint64, uint64) {
 }
 
 // maxRow returns maxRowID of the rows in the filter and its count.
-// if filter is nil, it returns fragment.maxRowID, 1
+// if filter is nil, it returns the largest non-empty row, 1
 // if fragment has no rows, it returns 0, 0
 func (f *fragment) maxRow(filter *Row) (uint64, uint64) {
 	minRowID, hasRowID := f.minRowID()
 	if hasRowID {
-		if filter == nil {
-			return f.maxRowID, 1
-		}
-		// iterate back from max row ID and return the first that intersects with filter.
+		// iterate back from the largest row in storage and return the first
+		// non-empty row (that intersects with filter). f.maxRowID is not used:
+		// it is a high-water mark which stays put when the row is cleared and
+		// which imports never raise.
 		// TODO: implement reverse container iteration to improve performance here for sparse data. --Jaffee
-		for i := f.maxRowID; i >= minRowID; i-- {
-			row := f.row(i).Intersect(filter)
-			count := row.Count()
-			if count > 0 {
+		for i := f.storage.Max() / ShardWidth; ; i-- {
+			row := f.row(i)
+			if filter != nil {
+				row = row.Intersect(filter)
+			}
+			if count := row.Count(); count > 0 {
+				if filter == nil {
+					count = 1
+				}
 				return i, count
+			}
+			if i <= minRowID { // also guards the unsigned counter against wrapping below zero
+				break
 			}
 		}
 	}
